@@ -3,6 +3,18 @@
 import json, sys
 
 CHECKS = {
+ "C09": ("differential runtime monitor (sequential vs rayon pools 1..16 / raw threads with injected delays; CLI under thread counts x hook jitter) + ThreadSanitizer, Miri and memcheck legs",
+         "Exploration over schedules: library replicas compared byte for byte with their sequential reference under 7 concurrency modes with seeded sleeps/yields inside score(), the original watched continuously; the real binary's three outputs compared across RAYON_NUM_THREADS {1,2,3,5,8,16} x jitter seeds, with the schedules actually taken read from the hook log and counted (~90 distinct in a quick run). Thorough tier: TSan build of the binary (hooks on), Miri on the UnsafeCell parameter cells under threads, valgrind memcheck on the release binary; any report is a violation.",
+         "Schedules are sampled; sanitizers see only the paths driven; Miri runs on real states need -Zmiri-disable-validation because of nalgebra 0.22's own uninit().assume_init().",
+         "DESIGN.md 5 C09"),
+ "C10": ("process-boundary monitor on the real CLI with per-replica scores from the guarded hook log; re-scoring of the written JSON; label/geometry table from argv",
+         "Exploration: 28 (quick) / 210 (thorough) argv families x replications 1..K: written score = max of replica final scores, logged score = score of written structure, monotone in the number of replications, group/family/copy-count/shape geometry as requested.",
+         "Replica scores come from the add-only hook (final score paired with the replica through per-thread event order).",
+         "DESIGN.md 5 C10"),
+ "C11": ("runtime monitor: serde_json text round trip (bytes, score bits, placement bits) + SVG parser compared with placements and independent lattice images; CLI files included",
+         "Exploration: ~0.2M (quick) / ~16M (thorough) states with full-precision and range-edge parameters, some optimised, round-tripped through JSON text; ~4k / ~200k SVG documents parsed and matched (9 N transforms each, matrix column order, #mol geometry); the binary's own files must re-serialise to themselves and reproduce the logged score bit for bit.",
+         "The harness never relies on serde_json's float parser for its own reading of files (own exact reader).",
+         "DESIGN.md 5 C11"),
  "C08": ("Spy range monitor on every evaluated state + per-stage JSON checks over chains of 1-4 optimisation stages, plus initial-state validity sweep",
          "Exploration: ~1.5k (quick) / ~57k (thorough) chains of 1-4 stages on hard and LJ states of all groups (4M+ evaluated states range-checked in quick), with bounds re-derived from each stage's own start, labels and degrees of freedom per family, finite defined score of the re-read result, no panic; and from_group validity for every group x {polygon 3..64, circle, trimers} x potential.",
          "Ranges are those stated by the property, not read from the code; results are read back through serde JSON as a user would.",
@@ -95,6 +107,8 @@ def main():
             "technique": tech,
         })
     na = [{"property_id": p, "reason": PENDING_REASON} for p in ALL if p not in CHECKS]
+    if not na:
+        na = []
     m = {
         "version": 1,
         "setup_cmd": "./setup.sh",
